@@ -204,7 +204,7 @@ func Read(r *bufio.Reader, l *log.Logger) (Message, error) {
 		}
 	case 14, 15:
 		if length != 1 {
-			return nil, err
+			return nil, ErrParse
 		}
 		if tpe == 14 {
 			debugf("<- HaveAll")
